@@ -90,7 +90,9 @@ func vp_C09_reuse() {
 	n, _ := vpVerNum(ver)
 	e1m, _ := e1.Membership()
 	kf := n >= 8 && e1.Type() == spec.MRoomMember && e1m == spec.Join && (jr == spec.Restricted || jr == spec.KnockRestricted)
-	vpAssertKF("reused-equals-fresh", reused == fresh, "KF-C09-1", kf)
+	_ = kf
+	// (fixed: KF-C09-1 - a restricted self-join rewrote the cached join rule of the shared checker)
+	vpAssert("reused-equals-fresh", reused == fresh)
 	vpReach("both-accept", reused && fresh)
 	vpReach("both-reject", !reused && !fresh)
 }
